@@ -47,6 +47,31 @@ class World:
         # a Hamiltonian made directly from a matrix (NO rotating-wave reference) with its own
         # system-bath interaction, shared by whatever is built on it
         self.ham2, self.sbi2 = systems.ham_sbi([e for e in en], J, BATH, self.ta)
+        # results the caller keeps (the very objects the library returned, uncopied) with a
+        # private copy of what they contained when they were returned
+        self.held = []
+        self.in_ctx = 0
+
+    def cp(self, what, obj, attr=None):
+        """Private copy of a returned array (or of obj.<attr>); the returned object itself is
+        kept so that it can be looked at again after later calls.  Results obtained inside an
+        ambient context are not kept (they are re-expressed when the context is left)."""
+        arr = getattr(obj, attr) if attr else obj
+        c = numpy.array(arr, copy=True)
+        if self.in_ctx == 0:
+            self.held.append((what, obj, attr, c))
+        return c
+
+    def held_changed(self):
+        out = []
+        for what, obj, attr, c in self.held:
+            now = numpy.asarray(getattr(obj, attr) if attr else obj)
+            if now.shape != c.shape or not numpy.array_equal(now, c):
+                if now.shape == c.shape and numpy.allclose(now, c, rtol=0, atol=1e-13 * max(
+                        1.0, float(numpy.max(numpy.abs(c))) if c.size else 1.0)):
+                    continue
+                out.append(what)
+        return out
 
     # ---- observable inputs ----------------------------------------------
     def snapshot(self):
@@ -157,12 +182,16 @@ class World:
             # always created outside any ambient context (here), so that a history and its twin
             # differ only in the calls made in between
             self.ensure(list(inner))
-            if ctx == "units":
-                with qr.energy_units("1/cm"):
-                    return self.call(list(inner))
-            if ctx == "basis":
-                with qr.eigenbasis_of(self.ham):
-                    return self.call(list(inner))
+            self.in_ctx += 1
+            try:
+                if ctx == "units":
+                    with qr.energy_units("1/cm"):
+                        return self.call(list(inner))
+                if ctx == "basis":
+                    with qr.eigenbasis_of(self.ham):
+                        return self.call(list(inner))
+            finally:
+                self.in_ctx -= 1
             raise isolation.HarnessError(ctx)
         if name == "in2":
             # two calls made inside ONE ambient context: the result of the second one is
@@ -171,9 +200,13 @@ class World:
             self.ensure(list(first))
             self.ensure(list(second))
             cm = qr.energy_units("1/cm") if ctx == "units" else qr.eigenbasis_of(self.ham)
-            with cm:
-                self.call(list(first))
-                return self.call(list(second))
+            self.in_ctx += 1
+            try:
+                with cm:
+                    self.call(list(first))
+                    return self.call(list(second))
+            finally:
+                self.in_ctx -= 1
         if name == "heom_plain":
             # hierarchy + propagator set up on the plain Hamiltonian (the library refuses a
             # Hamiltonian without RWA; whatever it answers, the Hamiltonian stays as it was)
@@ -181,13 +214,13 @@ class World:
             hy = KTHierarchy(self.ham2, self.sbi2, 1)
             kp = KTHierarchyPropagator(self.ta, hy)
             ev = kp.propagate(self.rho["rho0"])
-            return {"evolution": numpy.array(ev.data, copy=True)}
+            return {"evolution": self.cp(_name(op) + ":evolution", ev, "data")}
         if name == "propagate_plain":
             if "plain" not in self.props:
                 self.props["plain"] = (qr.qm.ReducedDensityMatrixPropagator(self.ta, self.ham2),
                                        {"Nref": 1})
             ev = self.props["plain"][0].propagate(self.rho["rho0"])
-            return {"evolution": numpy.array(ev.data, copy=True),
+            return {"evolution": self.cp(_name(op) + ":evolution", ev, "data"),
                     "in_rwa": numpy.array([1.0 if getattr(ev, "is_in_rwa", False) else 0.0])}
         if name == "propagate_pdeph":
             # pure dephasing + refinement requested through the propagate argument
@@ -210,7 +243,7 @@ class World:
                 settings["Nref"] = nref          # documented: a setting that stays on the object
             ev = p.propagate(self.rho["rho0"], Nref=nref) if nref > 1 \
                 else p.propagate(self.rho["rho0"])
-            return {"evolution": numpy.array(ev.data, copy=True), "_settings": dict(settings)}
+            return {"evolution": self.cp(_name(op) + ":evolution", ev, "data"), "_settings": dict(settings)}
         if name == "bad":
             # a call with an argument the library refuses: whatever it answers (normally an
             # exception, which the caller handles), the inputs are as before and later calls
@@ -261,7 +294,22 @@ class World:
                 kw["coupling_cutoff"] = qr.convert(50.0, "1/cm")   # in the current units
             RR, hh = self.agg.get_RelaxationTensor(self.ta, relaxation_theory=theory,
                                                    time_dependent=td, secular_relaxation=sec, **kw)
+            return {"tensor": self.cp(_name(op) + ":tensor", RR, "data"),
+                    "ham": self.cp(_name(op) + ":ham", hh, "_data")}
+        if name == "tensor_nr":
+            # the rarely used request "do not recalculate": whatever it re-uses, what comes back is
+            # the tensor of THIS request
+            _, theory, td, sec = op
+            RR, hh = self.agg.get_RelaxationTensor(self.ta, relaxation_theory=theory,
+                                                   time_dependent=td, secular_relaxation=sec,
+                                                   recalculate=False)
             return {"tensor": numpy.array(RR.data, copy=True), "ham": numpy.array(hh._data, copy=True)}
+        if name == "propagate_nr":
+            _, theory, td, rho = op
+            p = self.agg.get_ReducedDensityMatrixPropagator(
+                self.ta, relaxation_theory=theory, time_dependent=td, recalculate=False)
+            ev = p.propagate(self.rho[rho])
+            return {"evolution": numpy.array(ev.data, copy=True)}
         if name == "propagate":
             _, theory, td, rho, nref = op
             key = "%s/%s" % (theory, td)
@@ -279,14 +327,14 @@ class World:
                 ev = p.propagate(self.rho[rho], Nref=nref)
             else:
                 ev = p.propagate(self.rho[rho])
-            return {"evolution": numpy.array(ev.data, copy=True), "_settings": dict(settings)}
+            return {"evolution": self.cp(_name(op) + ":evolution", ev, "data"), "_settings": dict(settings)}
         if name == "propagate_free":
             _, rho = op
             if "free" not in self.props:
                 p = qr.qm.ReducedDensityMatrixPropagator(self.ta, self.ham)
                 self.props["free"] = (p, {"Nref": 1})
             ev = self.props["free"][0].propagate(self.rho[rho])
-            return {"evolution": numpy.array(ev.data, copy=True)}
+            return {"evolution": self.cp(_name(op) + ":evolution", ev, "data")}
         if name == "sv":
             if self.svprop is None:
                 self.svprop = qr.qm.StateVectorPropagator(self.ta, self.ham)
@@ -295,7 +343,7 @@ class World:
                 v[2] = 0.6j
                 self.psi = qr.qm.StateVector(data=v)
             ev = self.svprop.propagate(self.psi)
-            return {"evolution": numpy.array(ev.data, copy=True)}
+            return {"evolution": self.cp(_name(op) + ":evolution", ev, "data")}
         if name == "pop":
             if self.popprop is None:
                 from quantarhei.qm.propagators.poppropagator import PopulationPropagator
@@ -305,21 +353,25 @@ class World:
                 self.rates = self.agg.get_RedfieldRateMatrix()
                 self.popprop = PopulationPropagator(self.ta, self.rates.data)
             p0 = numpy.zeros(self.ham.dim)
-            p0[self.ham.dim - 1] = 1.0
-            return {"pops": numpy.array(self.popprop.propagate(p0), copy=True)}
+            if len(op) > 1 and op[1] == 1:
+                p0[1] = 0.4
+                p0[2] = 0.6
+            else:
+                p0[self.ham.dim - 1] = 1.0
+            return {"pops": self.cp(_name(op) + ":pops", self.popprop.propagate(p0))}
         if name == "heom":
             _, rho = op
             if self.hprop is None:
                 self.hprop = self.agg.get_KTHierarchyPropagator(depth=self.cfg["hdepth"])
             ev = self.hprop.propagate(self.rho[rho])
-            return {"evolution": numpy.array(ev.data, copy=True)}
+            return {"evolution": self.cp(_name(op) + ":evolution", ev, "data")}
         if name == "heom_free":
             # rarely used option: propagation of the hierarchy alone (kernel construction)
             _, rho = op
             if self.hprop is None:
                 self.hprop = self.agg.get_KTHierarchyPropagator(depth=self.cfg["hdepth"])
             ev = self.hprop.propagate(self.rho[rho], free_hierarchy=True)
-            return {"evolution": numpy.array(ev.data, copy=True)}
+            return {"evolution": self.cp(_name(op) + ":evolution", ev, "data")}
         if name == "pop_matrix":
             # propagation matrix on a coarser axis, with perturbative corrections requested
             _, corr = op
@@ -333,11 +385,11 @@ class World:
             t2 = qr.TimeAxis(0.0, 4, self.ta.step * 5)
             out = self.popprop.get_PropagationMatrix(t2, corrections=corr)
             if isinstance(out, tuple):
-                res = {"U": numpy.array(out[0], copy=True)}
+                res = {"U": self.cp(_name(op) + ":U", out[0])}
                 for i, c in enumerate(out[1]):
                     res["corr%d" % i] = numpy.array(c, copy=True)
                 return res
-            return {"U": numpy.array(out, copy=True)}
+            return {"U": self.cp(_name(op) + ":U", out)}
         if name == "eso":
             _, mode = op
             RR, hh = self.agg.get_RelaxationTensor(self.ta, relaxation_theory="standard_Redfield")
@@ -345,24 +397,24 @@ class World:
             eso = qr.qm.EvolutionSuperOperator(t2, hh, RR)
             eso.set_dense_dt(5)
             eso.calculate(show_progress=False)
-            out = {"U": numpy.array(eso.data, copy=True)}
+            out = {"U": self.cp("eso:U", eso, "data")}
             r = eso.apply(t2.data[2], self.rho["rho0"])
-            out["applied"] = numpy.array(r.data, copy=True)
+            out["applied"] = self.cp("eso:applied", r, "data")
             return out
         if name == "rates":
             _, which = op
             if which == "redfield":
-                return {"K": numpy.array(self.agg.get_RedfieldRateMatrix().data, copy=True)}
-            return {"K": numpy.array(self.agg.get_FoersterRateMatrix().data, copy=True)}
+                return {"K": self.cp("rates/redfield:K", self.agg.get_RedfieldRateMatrix(), "data")}
+            return {"K": self.cp("rates/foerster:K", self.agg.get_FoersterRateMatrix(), "data")}
         if name == "abs":
             calc = qr.AbsSpectrumCalculator(self.ta, system=self.agg)
             calc.bootstrap(rwa=qr.convert(12100.0, "1/cm", "int"))
             sp = calc.calculate()
-            return {"spectrum": numpy.array(sp.data, copy=True)}
+            return {"spectrum": self.cp("abs:spectrum", sp, "data")}
         if name == "dm":
             _, cond = op
             r = self.agg.get_DensityMatrix(condition_type=cond, temperature=300.0)
-            return {"rho": numpy.array(r.data, copy=True)}
+            return {"rho": self.cp(_name(op) + ":rho", r, "data")}
         raise isolation.HarnessError("unknown op %r" % (op,))
 
 
@@ -379,7 +431,7 @@ def menu(tier):
            ["propagate", "standard_Foerster", False, "rho0", 1],
            ["propagate", "combined_RedfieldFoerster", False, "rho0", 1],
            ["propagate_free", "rho0"],
-           ["sv"], ["pop"],
+           ["sv"], ["pop", 0], ["pop", 1],
            ["heom", "rho0"], ["heom", "rho1"], ["heom_free", "rho0"],
            ["pop_matrix", -1], ["pop_matrix", 2],
            ["eso", "all"],
@@ -387,6 +439,8 @@ def menu(tier):
            ["abs"], ["dm", "thermal"], ["dm", "impulsive_excitation"]]
     ops = [o for o in ops if o is not None]
     ops += [["heom_plain"], ["propagate_plain"], ["propagate_pdeph", 1], ["propagate_pdeph", 5]]
+    ops += [["tensor_nr", "standard_Redfield", False, False],
+            ["propagate_nr", "standard_Redfield", False, "rho0"]]
     ops += [["bad", "tensor_cutoff"], ["bad", "tensor_theory"], ["bad", "dm_condition"],
             ["bad", "propagate_dim"], ["propagate", "standard_Redfield", False, "rho0", 2]]
     ops += [["propagate", "noneq_Foerster", True, "rho0", 1],
@@ -401,7 +455,7 @@ def menu(tier):
         ctxable += [["tensor", "standard_Foerster", False, False],
                     ["propagate", "standard_Foerster", False, "rho0", 1],
                     ["propagate", "standard_Redfield", True, "rho0", 1],
-                    ["heom", "rho0"], ["abs"], ["dm", "thermal"], ["pop"]]
+                    ["heom", "rho0"], ["abs"], ["dm", "thermal"], ["pop", 0]]
     for c in ("units", "basis"):
         for o in ctxable:
             ops.append(["in", c, o])
@@ -492,6 +546,13 @@ def execute(hist):
             for c in changed:
                 viol.append(("input-changed/%s/by-%s" % (c, _kind(op) if _kind(op) != "tensor" else opname),
                              "%s changed %s" % (opname, c), None))
+            # results of EARLIER calls the caller still holds are what they were
+            for hw in w.held_changed():
+                viol.append(("earlier-result-changed-by-later-call/%s/by-%s"
+                             % (hw.split(":")[0].split("/")[0] + ":" + hw.split(":")[1],
+                                _kind(op)),
+                             "the %s returned by an earlier call is different after %s "
+                             "(history %r)" % (hw, opname, [_name(o) for o in hist]), None))
             # twin world: the same call as the first call on fresh objects, same settings
             isolation.reset_manager()
             tw = World(cfg)
@@ -595,7 +656,13 @@ def run(run):
                     ["in", "basis", ["propagate_free", "rho0"]],
                     ["tensor", "combined_RedfieldFoerster", False, False], ["sv"],
                     ["dm", "thermal"], ["heom", "rho0"], ["heom_free", "rho0"],
-                    ["pop"], ["pop_matrix", 2], ["pop_matrix", -1],
+                    ["pop", 0], ["pop", 1], ["pop_matrix", 2], ["pop_matrix", -1],
+                    ["tensor_nr", "standard_Redfield", False, False],
+                    ["tensor_nr", "standard_Redfield", False, True],
+                    ["tensor", "standard_Redfield", False, True],
+                    ["tensor", "standard_Redfield", True, False],
+                    ["propagate_nr", "standard_Redfield", False, "rho0"],
+                    ["propagate", "standard_Redfield", True, "rho0", 1],
                     ["heom_plain"], ["propagate_plain"],
                     ["propagate_pdeph", 1], ["propagate_pdeph", 5]]
     run_bfs(run, execute, depth, cap_s=25 if run.tier == "quick" else 240,
